@@ -43,14 +43,17 @@ def usable(e):
 
 
 def okwant(w):
-    """a port one may ask for: a single usable word with a canonical number"""
-    c = classify(w)
-    if ' ' in w or '"' in w or '\\' in w or "'" in w:
+    """a request: a SOCKSPort line (first word usable with a canonical number, then option words)"""
+    if not w or w != w.strip(' ') or w == 'DEFAULT':
         return False
+    fw = first_word(w)
+    if '"' in fw or '\\' in fw or "'" in fw:
+        return False
+    c = classify(fw)
     if c[0] == 'port':
-        return str(c[1]) == w
+        return str(c[1]) == fw
     if c[0] == 'hostport':
-        return str(c[2]) == w.split(':', 1)[1]
+        return str(c[2]) == fw.split(':', 1)[1]
     return c[0] == 'unix'
 
 
@@ -271,8 +274,10 @@ class P(core.Prop):
     rule = ('histories: Tor\'s SocksPort = none / unset with 0..2 default lines / 1..6 lines (port, host:port, unix:path, '
             '0, auto, IPv6 and other non-numeric words) each with 0..3 option words (rarely with quotes, backslashes or '
             'double blanks); 1..4 calls of _create_socks_endpoint / Tor._default_socks_endpoint (direct) or '
-            'TorConfig.socks_endpoint / create_socks_endpoint (config) asking for no port, a present port, an absent '
-            'port or a near miss (prefix / superstring / same port other host) of a present one; the scripted Tor '
+            'TorConfig.socks_endpoint / create_socks_endpoint (config) asking for nothing, the first word of a present line, '
+            'a present line in full with its option words, another spelling of it (other / more / fewer / reordered '
+            'option words, double blank), a near miss (prefix / superstring / same port other host, with or without the '
+            'options) or an absent port or line; the scripted Tor '
             'refuses about one SETCONF in eight; plus a boundary stream (duplicates, many lines, only disabled / only '
             'unusable lines). client: every sequence of two attempt outcomes over {ok, 5 connection errors, 3 SOCKS '
             'error codes, connection lost during negotiation, no answer} with and without a given SOCKS endpoint '
@@ -286,7 +291,7 @@ class P(core.Prop):
                'returned and accepts it only if some order would produce it']
     assumptions = ['SocksPort lines are as Tor reports them: printable ASCII, first word unix:PATH, PORT, ADDR:PORT or a '
                    'word that is not a number (auto, [v6]:port); canonical decimals <= 65535; no leading / trailing blank',
-                   'a port asked for is a single usable word (no option words)',
+                   'a request is a SOCKSPort line of the same shape whose first word is usable (TorConfig.socks_endpoint may refuse one with option words)',
                    'direct calls: at most one default line is reported by GETCONF __SocksPort',
                    'TorConfig histories contain no CONF_CHANGED events and no other controller changes SocksPort',
                    'GETCONF itself never fails']
@@ -538,16 +543,40 @@ class P(core.Prop):
         return sep.join(parts)
 
     def _want(self, rng, lines):
-        words = [first_word(l) for l in lines]
-        good = [w for w in words if okwant(w)]
+        """a request: none / the first word of a present line / a present line in full (option words
+        included) / another spelling of a present line (same first word, other option words) /
+        a near miss of a present first word (with or without the line's options) / something absent"""
+        good = [l for l in lines if okwant(l)]
+        withopts = [l for l in good if ' ' in l]
         r = rng.random()
-        if r < 0.30:
+        if r < 0.22:
             return None
-        if r < 0.55 and good:
-            return rng.choice(good)
-        if r < 0.75 and good:
-            # near misses of a present word
-            w = rng.choice(good)
+        if r < 0.40 and good:
+            return first_word(rng.choice(good))
+        if r < 0.58 and good:
+            return rng.choice(withopts) if withopts and rng.random() < 0.8 else rng.choice(good)
+        if r < 0.72 and good:
+            l = rng.choice(withopts) if withopts and rng.random() < 0.6 else rng.choice(good)
+            ws = [x for x in l.split(' ') if x]
+            mode = rng.choice(['other', 'extra', 'fewer', 'reorder', 'blank', 'case'])
+            if mode == 'other' or len(ws) == 1:
+                cand = ' '.join([ws[0]] + [rng.choice(FLAGS) for _ in range(rng.choice([1, 2]))])
+            elif mode == 'extra':
+                cand = ' '.join(ws + [rng.choice(FLAGS)])
+            elif mode == 'fewer':
+                cand = ' '.join(ws[:-1])
+            elif mode == 'reorder':
+                cand = ' '.join([ws[0]] + ws[1:][::-1])
+            elif mode == 'blank':
+                cand = '  '.join(ws) if '  ' not in l else ' '.join(ws)
+            else:
+                cand = ' '.join([ws[0]] + [x.swapcase() for x in ws[1:]])
+            if okwant(cand):
+                return cand
+        if r < 0.86 and good:
+            l = rng.choice(good)
+            w = first_word(l)
+            opts = l[len(w):] if rng.random() < 0.4 else ''
             c = classify(w)
             if c[0] == 'port':
                 cand = [w[:-1], w + '0', '1' + w, '127.0.0.1:' + w, '127.0.0.2:' + w, w[1:]]
@@ -555,11 +584,13 @@ class P(core.Prop):
                 cand = [str(c[2]), w + '0', w[:-1], 'x' + w, '127.0.0.1:%d' % c[2]]
             else:
                 cand = [w + '2', w[:-1], w + '/x', 'unix:/' + w[5:]]
-            cand = [x for x in cand if x and okwant(x)]
+            cand = [x + opts for x in cand if x and okwant(x + opts)]
             if cand:
                 return rng.choice(cand)
         for _ in range(20):
             w = self._word(rng, allow_bad=False)
+            if rng.random() < 0.3:
+                w = w + ' ' + rng.choice(FLAGS)
             if okwant(w):
                 return w
         return '9999'
@@ -607,7 +638,7 @@ class P(core.Prop):
                 want = None if api == 'default' else self._want(rng, lines)
             ops.append({'api': api, 'want': want, 'avail': avail, 'accept': accept})
             # keep the generator's idea of the lines roughly current, so later wants hit added ports
-            if want is not None and want not in [first_word(l) for l in lines] and accept:
+            if want is not None and want not in lines and want not in [first_word(l) for l in lines] and accept:
                 lines = lines + [want]
             elif want is None and not any(usable(l) for l in lines) and accept and api in ('create', 'default'):
                 lines = lines + [str(avail)]
@@ -636,7 +667,7 @@ class P(core.Prop):
             small = self._small_scope()
             out.extend(small)
             desc += ('; single calls over every configuration of <= 2 lines from 7 line shapes (plus none / unset with '
-                     'and without a default line) x 6 requests x 4 APIs x accept/refuse (%d cases)' % len(small))
+                     'and without a default line) x 12 requests (none, ports, whole lines with the same / other option words, near misses, absent) x 4 APIs x accept/refuse (%d cases)' % len(small))
         return out, desc
 
     @staticmethod
@@ -646,7 +677,9 @@ class P(core.Prop):
         configs = [(None, []), (None, ['9050']), ([], [])]
         configs += [([a], []) for a in shapes]
         configs += [([a, b], []) for a in shapes for b in shapes]
-        wants = [None, '9050', '905', 'unix:/tmp/s', '127.0.0.1:9050', '7000']
+        wants = [None, '9050', '905', 'unix:/tmp/s', '127.0.0.1:9050', '7000',
+                 '9050 IPv6Traffic', '9050 PreferIPv6', 'unix:/tmp/s WorldWritable', 'unix:/tmp/s GroupWritable',
+                 '127.0.0.1:9050 IsolateDestAddr', '7000 IsolateDestAddr']
         out = []
         for sp, dflt in configs:
             for api in ('create', 'default', 'cfg_ep', 'cfg_create'):
